@@ -590,12 +590,12 @@ def c01b(F, R):
 HGKI = "HasGenKillInfo"
 
 
-def reduce_closures(f):
-    """closure bodies passed to `.reduce(..)`/`.fold(..)` in fn f with the chain's source expression."""
+def reduce_closures(f, F=None):
+    """closure bodies (or named functions) passed to `.reduce(..)`/`.fold(..)` in fn f with the chain's source expression."""
     for n in walk(f["hir"]["value"]):
         if n.get("k") == "MethodCall" and n["name"] in ("reduce", "fold") and n["args"]:
-            cl = peel(n["args"][-1])
-            if cl.get("k") == "Closure":
+            cl = closure_like(F, n["args"][-1])
+            if cl is not None:
                 yield n, cl
 
 
@@ -623,7 +623,7 @@ def c01c(F, R):
     if band is None:
         raise Anchor("BitAndAssign for AvailableValueMap not found")
     n = 0
-    for call, cl in reduce_closures(f):
+    for call, cl in reduce_closures(f, F):
         src = "reg_values_out" if chain_mentions(call, "reg_values_out") else ("memory_values_out" if chain_mentions(call, "memory_values_out") else None)
         if src is None:
             continue
@@ -662,7 +662,7 @@ def c02c(F, R):
     if not bor or not bnd:
         raise Anchor("BitOr/BitAnd for RegisterSet not found")
     nl = nu = 0
-    for call, cl in reduce_closures(f):
+    for call, cl in reduce_closures(f, F):
         body = peel(cl["body"])
         c = callee_of(body) if body.get("k") == "Binary" else None
         if chain_mentions(call, "live_in"):
@@ -1664,7 +1664,7 @@ def c12e(F, R):
             if st.get("k") == "Let" and st["pat"].get("k") == "PBinding":
                 outer_lets.add(st["pat"]["name"])
         n = 0
-        for call, cl in reduce_closures(f):
+        for call, cl in reduce_closures(f, F):
             # walk the chain below the reduce for filters
             r = call["recv"]
             while r.get("k") == "MethodCall":
@@ -2271,7 +2271,7 @@ def c06u(F, R):
         for m in walk(body, pats=False):
             if m.get("k") == "MethodCall" and m["name"] in ("unwrap_or_default", "unwrap_or") and peel(m["recv"]).get("k") == "MethodCall" and peel(m["recv"])["name"] == "reduce":
                 red = peel(m["recv"])
-                cl = peel(red["args"][0]) if red["args"] else {}
+                cl = (closure_like(F, red["args"][0]) or {}) if red["args"] else {}
                 inter = any((x.get("k") == "AssignOp" and x["op"] == "BitAndAssign") or (x.get("k") == "Binary" and x["op"] == "BitAnd") for x in walk(cl.get("body") or {}, pats=False))
                 chain = list(walk(red["recv"], pats=False))
                 over_prevs = any(x.get("k") == "MethodCall" and x["name"] == "prevs" for x in chain)
